@@ -153,28 +153,32 @@ Proof.
 Qed.
 Lemma fix_te_ok m m' ch : keys_ok m -> fix_te m = Some (m', ch) -> keys_ok m'.
 Proof.
-  intros Hm. unfold fix_te. destruct (hfind s_transfer_encoding m) as [vs|]; [|intros H; inversion H; subst; exact Hm].
-  destruct (te_loop _ _) as [[|[|n]]|]; intros H; inversion H; subst.
-  - apply hdel_ok. exact Hm.
-  - apply hdel_ok. apply hdel_ok. exact Hm.
+  intros Hm. unfold fix_te. destruct (hfind s_transfer_encoding m) as [[|v [|v' vs]]|]; try discriminate.
+  - destruct (bytes_eqb _ _); [|discriminate]. intros H; inversion H; subst. apply hdel_ok. apply hdel_ok. exact Hm.
+  - intros H; inversion H; subst. exact Hm.
 Qed.
-Lemma fix_length_ok m ch m' n : keys_ok m -> fix_length m ch = Some (m', n) -> keys_ok m'.
+Lemma fix_length_inv (P : hmap -> Prop) m ch m' n :
+  P m -> (forall v, P (hset s_content_length v m)) ->
+  fix_length m ch = Some (m', n) -> P m'.
 Proof.
-  intros Hm. unfold fix_length. destruct ch; [intros H; inversion H; subst; exact Hm|].
+  intros Hm Hset. unfold fix_length. destruct ch; [intros H; inversion H; subst; exact Hm|].
   set (m1 := match hfind s_content_length m with
              | Some (v0 :: v1 :: vs) =>
                if forallb (fun v => bytes_eqb (trim_sp v) (trim_sp v0)) (v1 :: vs)
                then Some (hset s_content_length (trim_sp v0) m) else None
              | _ => Some m end).
-  assert (H1 : forall x, m1 = Some x -> keys_ok x).
+  assert (H1 : forall x, m1 = Some x -> P x).
   { intros x. unfold m1. destruct (hfind s_content_length m) as [[|v0 [|v1 vs]]|];
       try (intros H; inversion H; subst; exact Hm).
-    destruct (forallb _ _); [|discriminate]. intros H; inversion H; subst.
-    apply hset_ok; [exact canonical_cl|exact Hm]. }
+    destruct (forallb _ _); [|discriminate]. intros H; inversion H; subst. apply Hset. }
   destruct m1 as [x|]; [|discriminate]. specialize (H1 x eq_refl).
-  destruct (trim_sp (hfirst s_content_length x)) as [|c cr].
-  - intros H; inversion H; subst. apply hdel_ok. exact H1.
-  - destruct (parse_dec (c :: cr)); intros H; inversion H; subst. exact H1.
+  destruct (hfind s_content_length x); [|intros H; inversion H; subst; exact H1].
+  destruct (trim_sp (hfirst s_content_length x)) as [|c cr]; [discriminate|].
+  destruct (parse_dec (c :: cr)); intros H; inversion H; subst. exact H1.
+Qed.
+Lemma fix_length_ok m ch m' n : keys_ok m -> fix_length m ch = Some (m', n) -> keys_ok m'.
+Proof.
+  intros Hm. apply (fix_length_inv keys_ok); [exact Hm|]. intros v. apply hset_ok; [exact canonical_cl|exact Hm].
 Qed.
 Lemma fix_trailer_ok m m' : keys_ok m -> fix_trailer m = Some m' -> keys_ok m'.
 Proof.
@@ -373,47 +377,17 @@ Proof.
   unfold read_request.
   pose proof (fix_pragma_vals _ (hdel_vals s_host _ (parse_headers_vals pairs))) as H0.
   set (m0 := fix_pragma (hdel s_host (parse_headers pairs))) in *.
-  unfold fix_te. destruct (hfind s_transfer_encoding m0) as [tvs|].
-  - destruct (te_loop _ _) as [[|[|k]]|]; try discriminate.
-    + pose proof (hdel_vals s_transfer_encoding _ H0) as H1. revert H1.
-      generalize (hdel s_transfer_encoding m0). intros m1 H1.
-      destruct (fix_length m1 false) as [[m2 n2]|] eqn:E2; [|discriminate].
-      assert (H2 : vals_ok m2).
-      { revert E2. unfold fix_length.
-        destruct (hfind s_content_length m1) as [[|v0 [|v1 vs]]|].
-        1,2,4: (destruct (trim_sp (hfirst s_content_length m1)) as [|c cr];
-                [intros H; inversion H; subst; apply hdel_vals; exact H1|
-                 destruct (parse_dec (c :: cr)); intros H; inversion H; subst; exact H1]).
-        destruct (forallb _ _); [|discriminate].
-        pose proof (hset_vals s_content_length (trim_sp v0) m1 H1) as H1'. revert H1'.
-        generalize (hset s_content_length (trim_sp v0) m1). intros mx H1'.
-        destruct (trim_sp (hfirst s_content_length mx)) as [|c cr];
-          [intros H; inversion H; subst; apply hdel_vals; exact H1'|
-           destruct (parse_dec (c :: cr)); intros H; inversion H; subst; exact H1']. }
-      unfold fix_trailer. destruct (hfirst s_trailer m2) as [|c cr].
-      * intros H; inversion H; subst. exact H2.
-      * destruct (existsb _ _); [discriminate|]. intros H; inversion H; subst. apply hdel_vals. exact H2.
-    + simpl. pose proof (hdel_vals s_content_length _ (hdel_vals s_transfer_encoding _ H0)) as H1. revert H1.
-      generalize (hdel s_content_length (hdel s_transfer_encoding m0)). intros m1 H1.
-      unfold fix_trailer. destruct (hfirst s_trailer m1) as [|c cr].
-      * intros H; inversion H; subst. exact H1.
-      * destruct (existsb _ _); [discriminate|]. intros H; inversion H; subst. apply hdel_vals. exact H1.
-  - destruct (fix_length m0 false) as [[m2 n2]|] eqn:E2; [|discriminate].
-    assert (H2 : vals_ok m2).
-    { revert E2. unfold fix_length.
-      destruct (hfind s_content_length m0) as [[|v0 [|v1 vs]]|].
-      1,2,4: (destruct (trim_sp (hfirst s_content_length m0)) as [|c cr];
-              [intros H; inversion H; subst; apply hdel_vals; exact H0|
-               destruct (parse_dec (c :: cr)); intros H; inversion H; subst; exact H0]).
-      destruct (forallb _ _); [|discriminate].
-      pose proof (hset_vals s_content_length (trim_sp v0) m0 H0) as H1'. revert H1'.
-      generalize (hset s_content_length (trim_sp v0) m0). intros mx H1'.
-      destruct (trim_sp (hfirst s_content_length mx)) as [|c cr];
-        [intros H; inversion H; subst; apply hdel_vals; exact H1'|
-         destruct (parse_dec (c :: cr)); intros H; inversion H; subst; exact H1']. }
-    unfold fix_trailer. destruct (hfirst s_trailer m2) as [|c cr].
-    + intros H; inversion H; subst. exact H2.
-    + destruct (existsb _ _); [discriminate|]. intros H; inversion H; subst. apply hdel_vals. exact H2.
+  destruct (fix_te m0) as [[m1 c1]|] eqn:E1; [|discriminate].
+  assert (H1 : vals_ok m1).
+  { revert E1. unfold fix_te. destruct (hfind s_transfer_encoding m0) as [[|v [|v' vs]]|]; try discriminate.
+    - destruct (bytes_eqb _ _); [|discriminate]. intros H; inversion H; subst. apply hdel_vals. apply hdel_vals. exact H0.
+    - intros H; inversion H; subst. exact H0. }
+  destruct (fix_length m1 c1) as [[m2 n2]|] eqn:E2; [|discriminate].
+  assert (H2 : vals_ok m2).
+  { apply (fix_length_inv vals_ok m1 c1 m2 n2); [exact H1| |exact E2]. intros v. apply hset_vals. exact H1. }
+  unfold fix_trailer. destruct (hfirst s_trailer m2) as [|c cr].
+  - intros H; inversion H; subst. exact H2.
+  - destruct (existsb _ _); [discriminate|]. intros H; inversion H; subst. apply hdel_vals. exact H2.
 Qed.
 
 Lemma insert_sorted_In_rev e x l : x = e \/ In x l -> In x (insert_sorted e l).
